@@ -119,6 +119,13 @@ def bm_state(bm):
 
 def eq_value(a, b):
     """z3/py condition: two state values are equal by content"""
+    if isinstance(a, np.random.RandomState) and not isinstance(a, facade.SymRandomState):
+        if not isinstance(b, np.random.RandomState):
+            return False
+        sa, sb = a.get_state(), b.get_state()
+        if sa[0] == "scripted" or sb[0] == "scripted":
+            return sa[0] == sb[0] and sa[1:3] == sb[1:3]
+        return sa[0] == sb[0] and np.array_equal(sa[1], sb[1]) and sa[2:] == sb[2:]
     if isinstance(a, facade.SymRandomState) or isinstance(b, facade.SymRandomState):
         if not (isinstance(a, facade.SymRandomState) and isinstance(b, facade.SymRandomState)):
             return False
